@@ -16,7 +16,7 @@ def record():
     code = r'''
 import json, random, sys
 sys.path.insert(0, %r)
-from harness.props import c01, c04, c03, c11, c20, c08
+from harness.props import c01, c04, c03, c11, c20, c08, c06
 from harness import universe as U
 out = []
 rng = random.Random(1)
@@ -26,6 +26,7 @@ out += [e for e in c04.one({"kind": "exh_dfa", "k": 3, "S": "ab", "code": 1234, 
 out += list(c03.one({"kind": "exh_nfa", "k": 2, "S": "ab", "code": 4321, "eps": "e"}))
 out += list(c11.events({"kind": "tm_code", "nwork": 1, "gamma": "a_", "code": 77}, 1, rng))[:1]
 out += list(c20.one({"kind": "pairs", "k": 2, "S": "ab", "c1": 9, "c2": 9, "p2": "t"}))
+out += [e for e in c06.dfa_events({"kind": "exh_dfa", "k": 3, "S": "ab", "code": 2345, "pool": 0, "perm": 0}) if e["op"] == "rip_trace"]
 print(json.dumps(out))
 ''' % common.VERIF
     p = subprocess.run([common.PY, "-c", code], env=common.worker_env(0), stdout=subprocess.PIPE,
@@ -62,6 +63,8 @@ def corrupt(e):
         if len(c["seq"]) < 2:
             return None
         c["seq"][1][2] += 1                  # head position of the second configuration
+    elif op == "rip_trace":
+        del c["rips"][0]                     # one hook event removed
     elif op == "iso":
         c["res"] = not c["res"]
     elif op == "iso_trace":
